@@ -188,3 +188,103 @@ package file
 //@   assert at "stream := pipeline.StreamName(line[4:pos])" forall k :: (0 <= k && 4 + k + 1 < len(line) && line[4+k] == ':' && line[4+k+1] == ' ' && nochr(line[4+k+1:], ':')) ==> pos == 4 + k
 //@   callee parseLine(c, p)
 //@     requires true
+
+// ---------------------------------------------------------------------------
+// C03: the sequential facts the restart argument rests on.
+
+//@ monitor Job.mu
+//@   self j
+//@   protects offsets
+
+// PassEvent: after a restart an event is dropped as already delivered only if its
+// stream has a saved offset and the event's offset is not beyond it.
+
+//@ func (*Plugin).PassEvent
+//@   ghost saved int = 0
+//@   ghost exist bool = false
+//@   requires event != nil
+//@   ensures result == !(exist && event.Offset <= saved)
+//@   callee Get(name) (v, ok)
+//@     pure
+//@     set saved := v
+//@     set exist := ok
+//@   callee StreamNameBytes()
+//@     pure
+//@   callee Inc()
+//@     pure
+
+// commit: only a regular (or split-parent) event that is not older than the last
+// truncation stores an offset; what is stored is the event's own offset, under the
+// job's lock, and it is strictly larger than the stream's previous offset.
+
+//@ func (*jobProvider).commit
+//@   option allow-exit yes
+//@   ghost cur int = 0
+//@   ghost nset int = 0
+//@   requires event != nil
+//@   ensures nset <= 1
+//@   callee Get(name) (v, ok)
+//@     pure
+//@     set cur := v
+//@   callee Set(name, v)
+//@     requires nset == 0 && v == event.Offset && event.Offset > cur
+//@     requires event.SeqID > job.ignoreEventsLE
+//@     preserves Event, Job
+//@     set nset := nset + 1
+//@   callee StreamNameBytes()
+//@     pure
+//@   callee ByteToStringUnsafe(b)
+//@     pure
+//@   callee save(j, m)
+//@     preserves Event
+
+// truncateJob: everything read before the truncation is ignored for offset commits,
+// the file is read again from the start, every stream offset is reset to 0.
+
+//@ func (*jobProvider).truncateJob
+//@   ghost nseek int = 0
+//@   requires job != nil
+//@   ensures nseek == 1
+//@   assert at "job.seek(0, io.SeekStart" job.ignoreEventsLE == job.lastEventSeq
+//@   callee seek(off, whence, hint)
+//@     requires off == 0 && whence == 0
+//@     preserves Job
+//@     set nseek := nseek + 1
+//@   callee Set(name, v)
+//@     requires v == 0
+//@     preserves Job
+//@   callee Infof(f, a)
+//@     pure
+
+// processEOF: a truncation is detected exactly when the read position is beyond
+// the file's size (uncompressed files).
+
+//@ func (*worker).processEOF
+//@   ghost size int = 0
+//@   ghost ntrunc int = 0
+//@   ghost staterr bool = false
+//@   requires job != nil
+//@   ensures !staterr ==> (ntrunc == 1) == (!old(job.isCompressed) && totalOffset > size)
+//@   callee Stat() (fi, err)
+//@     pure
+//@     set staterr := err != nil
+//@   callee Size() (r)
+//@     pure
+//@     set size := r
+//@   callee truncateJob(j)
+//@     requires j == job && ntrunc == 0
+//@     preserves Job
+//@     set ntrunc := ntrunc + 1
+//@   callee doneJob(j)
+//@     preserves Job
+
+// initJobOffset (continue): the resume position is not beyond any saved stream
+// offset that the scan has seen (minimum); without saved offsets reading starts at 0.
+// (Called on a job that is not published yet: exclusive access stands for the lock.)
+
+//@ func (*jobProvider).initJobOffset
+//@   option allow-exit yes
+//@   requires held(job.mu)
+//@   loop 1 iter-ensures minOffset <= offset#2
+//@   callee seek(off, whence, hint)
+//@     preserves jobProvider
